@@ -421,3 +421,72 @@ def run_config_matrix(res, tier, pid="C01", seed=0):
             for t in threads[i:i + 6]: t.join()
     finally:
         shutil.rmtree(tmp, ignore_errors=True)
+
+def run_cli_reload_policies(res, tier):
+    """`python -m nauyaca serve <root> --reload --reload-dir <dir> --config=<file>`: the parent is a supervisor, the server is its
+    child, started with the parent's command line minus the reload flags.  The access policy of the configuration file must be
+    the one the child enforces - also when the file's (or the root's) name contains "reload", in both spellings of --config.
+    host and port are given on the command line as well, so that a child that lost its --config still listens where we look
+    (and shows the loss as status 20 instead of 53).  Supervisor and child run in their own process group, which is killed in
+    every case."""
+    import signal
+    tmp = scratch_dir("nv-live5-")
+    try:
+        deny, allow = 'deny_list = ["127.0.0.0/8"]\ndefault_allow = true', 'allow_list = ["127.0.0.1"]\ndefault_allow = false'
+        cases = [("deny-loopback/--config=FILE", "capsule", "eq", deny, b"53"),
+                 ("allow-loopback/--config=FILE", "capsule", "eq", allow, b"20"),
+                 ("deny-loopback/--config FILE/root named reload-root", "reload-root", "two", deny, b"53")]
+        if tier != "quick":
+            cases += [("default-deny-only/-c FILE", "capsule", "short", "default_allow = false", b"53"),
+                      ("allow-loopback/--config FILE/root named reload-root", "reload-root", "two", allow, b"20")]
+        env = {k: v for k, v in os.environ.items() if not k.startswith("NAUYACA_")}
+        env["PYTHONPATH"] = os.path.join(os.environ.get("NV_REPO", "/repo"), "src")
+        watch = os.path.join(tmp, "watched"); os.makedirs(watch)
+        for i, (name, rootname, form, section, want) in enumerate(cases):
+            cdir = os.path.join(tmp, "case%d" % i); os.makedirs(cdir)
+            root = os.path.join(cdir, rootname); os.makedirs(root)
+            open(os.path.join(root, "index.gmi"), "wb").write(b"# capsule\n")
+            port = free_port()
+            cfg = os.path.join(cdir, "dev-reload.toml")
+            open(cfg, "w").write('[server]\nhost = "127.0.0.1"\nport = %d\ndocument_root = "%s"\n\n[access_control]\n%s\n' % (port, root, section))
+            cfgargs = {"eq": ["--config=" + cfg], "two": ["--config", cfg], "short": ["-c", cfg]}[form]
+            argv = ["serve", root, "--reload", "--reload-dir", watch] + cfgargs + ["--host", "127.0.0.1", "--port", str(port), "--reload-ext=.gmi"]
+            log = open(os.path.join(cdir, "log"), "wb")
+            p = subprocess.Popen([PY, "-m", "nauyaca"] + argv, stdout=log, stderr=subprocess.STDOUT, env=env, cwd=cdir, start_new_session=True)
+            got, ended = b"", "server did not start"
+            try:
+                deadline = time.time() + 12
+                up = False
+                while time.time() < deadline and p.poll() is None:
+                    try:
+                        socket.create_connection(("127.0.0.1", port), timeout=0.5).close(); up = True; break
+                    except OSError:
+                        time.sleep(0.1)
+                if up:
+                    got, ended = fetch(port, "/", 0.0, timeout=5)
+            finally:
+                # the supervisor and its child: the whole process group (the supervisor's session), politely, then for certain
+                for sig, wait in ((signal.SIGTERM, 3.0), (signal.SIGKILL, 3.0)):
+                    try: os.killpg(p.pid, sig)
+                    except (ProcessLookupError, PermissionError): pass
+                    try: p.wait(timeout=wait)
+                    except subprocess.TimeoutExpired: pass
+                    t_end = time.time() + wait
+                    while time.time() < t_end:
+                        try: os.killpg(p.pid, 0)
+                        except (ProcessLookupError, PermissionError): break
+                        time.sleep(0.05)
+                try: p.wait(timeout=2)
+                except subprocess.TimeoutExpired: pass
+                log.close()
+            res.evaluations += 1; res.count("live-cli-reload-policy"); res.nontriv(("live-cli-reload", name))
+            if not got.startswith(want + b" "):
+                tail = open(os.path.join(cdir, "log"), "rb").read().decode(errors="replace")[-400:]
+                res.violations.append({"clause": "the access policy written in the configuration file is the one the server started by `serve --reload` enforces "
+                                                 "(the supervisor's child receives the parent's arguments minus the reload flags)",
+                                       "signature": "C09:cli-reload-" + name.split("/")[0] + "-" + form,
+                                       "case": {"argv": ["python", "-m", "nauyaca"] + [a.replace(tmp, "<tmp>") for a in argv], "access_control_section": section,
+                                                "config_file_name": "dev-reload.toml", "document_root_name": rootname, "peer": "127.0.0.1"},
+                                       "trace": {"expected_status": want.decode(), "received": got[:60].decode("latin-1"), "ended": ended, "log_tail": tail}})
+    finally:
+        shutil.rmtree(tmp, ignore_errors=True)
